@@ -49,14 +49,13 @@ pub struct Explored {
     pub truncated: bool,
 }
 
-#[derive(Clone)]
-struct Node<'a> {
-    cursor: MemCursor<'a>,
+struct Node<R> {
+    cursor: grenad::ReaderCursor<R>,
     pos: Pos,
     parent: Option<(usize, usize)>, // (node index, op index)
 }
 
-fn history_of(nodes: &[Node], ops: &[COp], mut at: usize, last: Option<usize>) -> String {
+fn history_of<R>(nodes: &[Node<R>], ops: &[COp], mut at: usize, last: Option<usize>) -> String {
     let mut v = Vec::new();
     if let Some(o) = last {
         v.push(ops[o].show());
@@ -69,8 +68,19 @@ fn history_of(nodes: &[Node], ops: &[COp], mut at: usize, last: Option<usize>) -
     v.join(", ")
 }
 
-/// Hooks for C16: called for every transition with (levels, op, bytes-level I/O is measured elsewhere).
 pub fn explore(bytes: &[u8], entries: &Entries, max_states: usize) -> Check<Explored> {
+    let fresh = rd::cursor(bytes)?;
+    explore_with(fresh, entries, max_states, &mut |_, _| Ok(()))
+}
+
+/// Exhaustive exploration from `fresh`. `hook(op, history)` runs right after every executed operation (C16 judges the
+/// I/O log there).
+pub fn explore_with<R: std::io::Read + std::io::Seek + Clone>(
+    fresh: grenad::ReaderCursor<R>,
+    entries: &Entries,
+    max_states: usize,
+    hook: &mut dyn FnMut(&COp, &dyn Fn() -> String) -> Check,
+) -> Check<Explored> {
     let m = Model::new(entries);
     let n = entries.len();
     let mut ops: Vec<COp> = vec![COp::First, COp::Last, COp::Next, COp::Prev, COp::Reset];
@@ -79,9 +89,8 @@ pub fn explore(bytes: &[u8], entries: &Entries, max_states: usize) -> Check<Expl
         ops.push(COp::Le(q.clone()));
         ops.push(COp::Eq(q));
     }
-    let fresh = rd::cursor(bytes)?;
     let mut index: HashMap<(Vec<u64>, Pos), usize> = HashMap::new();
-    let mut nodes: Vec<Node> = Vec::new();
+    let mut nodes: Vec<Node<R>> = Vec::new();
     index.insert((fresh.verif_fingerprint(), Pos::Fresh), 0);
     nodes.push(Node { cursor: fresh, pos: Pos::Fresh, parent: None });
     let mut queue: VecDeque<usize> = VecDeque::from([0]);
@@ -113,6 +122,7 @@ pub fn explore(bytes: &[u8], entries: &Entries, max_states: usize) -> Check<Expl
                 Fail::new(f.signature, format!("after [{}]: {}", history_of(&nodes, &ops, at, Some(oi)), f.msg))
             })?;
             transitions += 1;
+            hook(op, &|| history_of(&nodes, &ops, at, Some(oi)))?;
             let (expect, newpos) = match op {
                 COp::Reset => (Expect::Nothing, Pos::Fresh),
                 COp::Next => step_rel(n, pos, true),
